@@ -208,6 +208,10 @@ def strat_refused(tier):
     return c()
 
 
+def strat_chain(tier):
+    return _cases(gen.nullable_chain_cfgs())
+
+
 def strat_medium(tier):
     return _cases(gen.cfgs(max_nts=6, max_alts=3, max_rhs=4, max_terms=5))
 
@@ -242,6 +246,8 @@ SUBCHECKS = [
              examples={"quick": 6400, "thorough": 100000}),
     SubCheck("refused-merge-family", run_case, strategy=strat_refused, setup=_setup,
              examples={"quick": 4800, "thorough": 60000}),
+    SubCheck("nullable-chain-family", run_case, strategy=strat_chain, setup=_setup,
+             examples={"quick": 3200, "thorough": 40000}),
     SubCheck("medium-random", run_case, strategy=strat_medium, setup=_setup,
              examples={"quick": 3200, "thorough": 40000}),
 ]
